@@ -624,6 +624,17 @@ func (v *FnVC) oblige(kind, name string, guard, goal *Term, pos, text string) *O
 
 // smoke: `false` must NOT be provable here (vacuity guard); never assumed.
 func (v *FnVC) smoke(name string, guard *Term, pos string) {
+	// `opt dead=ret2,loop1.back1`: the contract claims this point is unreachable (dead code in
+	// the program, e.g. a defensive return). The claim becomes a proof obligation instead of a
+	// vacuity alarm; the obligations at that point still exist and hold trivially.
+	if v.spec != nil && v.spec.Opts["dead"] != "" {
+		for _, d := range strings.Split(v.spec.Opts["dead"], ",") {
+			if "smoke@"+strings.TrimSpace(d) == name {
+				v.oblige("dead", "dead@"+strings.TrimSpace(d), guard, False, pos, "this point is unreachable (claimed by `opt dead`)")
+				return
+			}
+		}
+	}
 	o := &Obligation{Fn: v.name, Name: v.name + "/" + name, Kind: "smoke", Guard: guard, Goal: False,
 		NAssume: len(v.assumes), NDef: len(v.defs), NDecl: len(v.decls), Pos: pos, Text: "reachable (vacuity guard: false must not be provable)", vc: v, Block: v.curBlock}
 	v.smokes = append(v.smokes, o)
